@@ -1,8 +1,109 @@
-(* C13 - proofs (aggregated) *)
-From Coq Require Import ZArith List Bool Lia.
-Require Import MV.Lib.Base MV.C13.Defs MV.C13.Gen MV.C13.Model.
+(* C13 - aggregation of the proof files, Euler-characteristic corollaries of the counts, and the non-vacuity
+   examples (concrete objects satisfying the hypotheses of the theorems exported in Props.v). *)
+From Coq Require Import ZArith List Bool Lia Permutation QArith Qcanon.
+Require Export MV.Lib.Base MV.C13.Defs MV.C13.Geom MV.C13.Gen MV.C13.Model MV.C13.Run.
+Require Export MV.C13.Proofs_Base MV.C13.Proofs_Counts MV.C13.Proofs_Topo MV.C13.Proofs_Geom
+               MV.C13.Proofs_Accept MV.C13.Proofs_Accept2 MV.C13.Proofs_Vol MV.C13.Proofs_Arg MV.C13.Proofs_Manifold.
 Import ListNotations.
 Open Scope Z_scope.
 
-Lemma Zlen_app {A} (a b : list A) : Zlen (a ++ b) = Zlen a + Zlen b.
-Proof. unfold Zlen. rewrite app_length. lia. Qed.
+Section Euler.
+Context {P : Type} (O : pops P).
+Definition chi2 (r : raw P) : Z := nV r - nE r + nF r.     (* surfaces *)
+Definition chi1 (r : raw P) : Z := nV r - nE r.            (* polylines *)
+
+Lemma euler_split_edge r e r' : split_edge O r e = Ok r' -> chi1 r' = chi1 r.
+Proof. intros H. apply split_edge_counts in H as [H1 H2]. unfold chi1. lia. Qed.
+Lemma euler_fan r f r' : split_face_as_fan O r f = Ok r' -> chi2 r' = chi2 r.
+Proof.
+  intros H. assert (exists F, getz (rf r) f = Ok F) as [F HF].
+  { unfold split_face_as_fan in H. destruct (getz (rf r) f); [eauto|discriminate]. }
+  destruct (fan_counts O r f r' F HF H) as [H1 [H2 H3]]. unfold chi2. lia.
+Qed.
+Lemma euler_triangulate_face r f r' : triangulate_face O r f = Ok r' -> chi2 r' = chi2 r.
+Proof.
+  intros H. assert (exists F, getz (rf r) f = Ok F) as [F HF].
+  { unfold triangulate_face in H. destruct (getz (rf r) f); [eauto|discriminate]. }
+  destruct (triangulate_face_counts O r f r' F HF H) as [H1 [H2 H3]]. unfold chi2.
+  destruct (Z_lt_le_dec (Zlen F) 4) as [L|L]; [rewrite (H1 L); lia|].
+  destruct (Z.eq_dec (Zlen F) 4) as [L4|L4]; [destruct (H2 L4) as [? [? ?]]; lia|].
+  destruct (H3 ltac:(lia)) as [? [? ?]]. lia.
+Qed.
+Lemma euler_quads r r' : q3_core O r = Ok r' -> chi2 r' = chi2 r.
+Proof. intros H. apply q3_core_counts in H as [H1 [H2 H3]]. unfold chi2. lia. Qed.
+(* loop: V' = V + E and F' = 4F, so the Euler characteristic is preserved exactly when E' = 2E + 3F *)
+Lemma euler_loop r r' : loop_step O r = Ok r' -> (chi2 r' = chi2 r <-> nE r' = 2 * nE r + 3 * nF r).
+Proof. intros H. apply loop_step_counts in H as [H1 H2]. unfold chi2. lia. Qed.
+End Euler.
+
+(* ------------------------------------------------------------------ non-vacuity: concrete objects meet the hypotheses *)
+Definition ex_square_V : list pt := [(qz 0, qz 0, qz 0); (qz 4, qz 0, qz 0); (qz 4, qz 4, qz 0); (qz 0, qz 4, qz 0); (qz 2, qz 6, qz 0)].
+Definition ex_square_F : list (list Z) := [[0; 1; 2; 3]; [3; 2; 4]].
+Definition ex_square := input_surface ex_square_V ex_square_F.
+
+Example ex_input_ok : input_ok (Zlen ex_square_V) ex_square_F.
+Proof.
+  change (Zlen ex_square_V) with 5. unfold input_ok, ex_square_F, face_ok, vert_ok, Zlen.
+  repeat (apply Forall_cons || apply Forall_nil);
+    (split; [split; [cbn; lia|repeat (apply Forall_cons || apply Forall_nil); lia]
+            |intros a b H; cbn in H; repeat (destruct H as [H|H]; [inversion H; subst; lia|]); contradiction]).
+Qed.
+Example ex_WF : WF ex_square.
+Proof. apply prepared_input_WF, ex_input_ok. Qed.
+(* a quad and a triangle: loop_subdivision(1), 3quads, a fan of one of the quads, triangulate - all inside one block *)
+Example ex_history_runs :
+  exists r, run_surface QcO ex_square [Loop 1; Quads3; Fan 7; Triangulate] = Ok r /\ Zlen (rf (pr (res_mesh r))) = 74.
+Proof. eexists. split; vm_compute; reflexivity. Qed.
+Example ex_hist_valid : hist_valid QcO (surf_enter ex_square) [Triangulate; Fan 2; Loop 1].
+Proof.
+  cbn [hist_valid op_valid]. split; [exact I|]. intros s1 H1. vm_compute in H1. inversion H1; subst s1; clear H1. split.
+  - vm_compute. split; congruence.
+  - intros s2 H2. split; [exact I|]. intros s3 _. exact I.
+Qed.
+Example ex_loop_step_ok : exists r1 r2, triangulate QcO ex_square = Ok r1 /\ loop_step QcO r1 = Ok r2 /\ closed (dedges_all (rf r1)) = closed (dedges_all (rf r1)).
+Proof. eexists. eexists. split; [vm_compute; reflexivity|]. split; [vm_compute; reflexivity|reflexivity]. Qed.
+(* a closed surface (tetrahedron boundary): `closed` holds and loop/3quads apply *)
+Definition ex_tet_F : list (list Z) := [[0; 1; 2]; [0; 3; 1]; [1; 3; 2]; [2; 3; 0]].
+Example ex_closed : closed (dedges_all ex_tet_F).
+Proof. unfold closed. vm_compute. perm_explicit. Qed.
+(* a tetrahedral mesh of two cells: cell fan then two face-centre splits in one block *)
+Definition ex_vol_V : list pt := [(qz 0, qz 0, qz 0); (qz 12, qz 0, qz 0); (qz 0, qz 12, qz 0); (qz 0, qz 0, qz 12); (qz 0, qz 0, qz (-12))].
+Definition ex_vol_C : list (list Z) := [[0; 1; 2; 3]; [0; 2; 1; 4]].
+Example ex_volume_runs :
+  exists p, run_volume QcO (input_volume ex_vol_V ex_vol_C) [CellFan 0; FaceCentre 3; FaceCentre 8] = Ok p /\ Zlen (rc (pr p)) = 13.
+Proof. eexists. split; vm_compute; reflexivity. Qed.
+Example ex_WFv : WFv (input_volume ex_vol_V ex_vol_C).
+Proof.
+  apply prepared_volume_WFv. unfold ex_vol_C. repeat (apply Forall_cons || apply Forall_nil); (split; [reflexivity|]);
+    repeat (apply Forall_cons || apply Forall_nil); unfold vert_ok; vm_compute; split; congruence.
+Qed.
+(* the field hypotheses of the geometry theorems hold for Qc *)
+Example ex_field_Qc : two Qc (Q2Qc 1) Qcplus <> Q2Qc 0 /\ three Qc (Q2Qc 1) Qcplus <> Q2Qc 0.
+Proof. split; intro H; vm_compute in H; discriminate. Qed.
+
+(* the boundary of a tetrahedron is an oriented, simple triangle surface whose prepared edge list covers it *)
+Definition ex_tet_V : list pt := [(qz 0, qz 0, qz 0); (qz 4, qz 0, qz 0); (qz 0, qz 4, qz 0); (qz 0, qz 0, qz 4)].
+Definition ex_tet := input_surface ex_tet_V ex_tet_F.
+Example ex_tet_oriented : oriented_tri (nV ex_tet) (rf ex_tet).
+Proof.
+  change (nV ex_tet) with 4. change (rf ex_tet) with ex_tet_F. unfold ex_tet_F. split.
+  - cbn. repeat (apply NoDup_cons || apply NoDup_nil); cbn; intuition congruence.
+  - repeat (apply Forall_cons || apply Forall_nil); (split; [reflexivity|split]);
+      try (repeat (apply Forall_cons || apply Forall_nil); unfold vert_ok; lia);
+      repeat (apply NoDup_cons || apply NoDup_nil); cbn; intuition congruence.
+Qed.
+Example ex_tet_simple : simple_tri (rf ex_tet).
+Proof.
+  change (rf ex_tet) with ex_tet_F. intros A B C H H'. cbn in H, H'.
+  repeat (destruct H as [H|H]; [inversion H; subst; clear H; repeat (destruct H' as [H'|H']; [discriminate|]); contradiction|]).
+  contradiction.
+Qed.
+Example ex_tet_covered : Forall (covered (re ex_tet)) (rf ex_tet).
+Proof.
+  assert (H : WF ex_tet).
+  { apply prepared_input_WF. change (Zlen ex_tet_V) with 4. unfold input_ok, ex_tet_F, face_ok, vert_ok, Zlen.
+    repeat (apply Forall_cons || apply Forall_nil);
+      (split; [split; [cbn; lia|repeat (apply Forall_cons || apply Forall_nil); lia]
+              |intros a b H; cbn in H; repeat (destruct H as [H|H]; [inversion H; subst; lia|]); contradiction]). }
+  apply H.
+Qed.
